@@ -1,25 +1,34 @@
 """Gen/SvgTables.v: the tables and constants the SVG pipeline of /repo works from (property C18).
 
-Two sources, both read from the tree under check on every run:
+Everything is read from the tree under check on every run, from two sources:
 
 * reflection in a subprocess (computed tables): ``capstyle.STYLES`` (colours as the hex text
   that ``RGB.tohex`` gives), the marker factory registry, the symbol registry of
   ``diagram/_icons.py`` with, for every symbol, its declared dependencies and the ids /
   ``url(#..)`` / ``href="#.."`` references found in the XML the factory really returns, and
   the class sets of ``svg/decorations.py``;
-* the AST (literal shapes, fail closed): ``_json_enc._intround``, the hidden filter of the
-  encoder, the padding arithmetic of ``DiagramMetadata.__init__``, the ``type_mapping`` of
-  ``Drawing.draw_object``.
+* the source, read by MEANING rather than by shape (``gen_reqif.Reader``: the function is
+  executed symbolically, local names are replaced by what they were assigned, if/else joins
+  become conditional expressions, module constants are looked up): ``_json_enc._intround``,
+  what the JSON encoder puts into x / y / width / height / contents / class of a diagram, the
+  padding arithmetic of ``DiagramMetadata.__init__``, the type -> (draw method, style prefix)
+  dispatch of ``Drawing.draw_object``.  Each of these is ALSO probed on the real functions in
+  the subprocess; the probe must agree with what was read from the source, else the generator
+  raises.
 
-Anything that no longer has the expected shape raises, which the build reports as a broken tie.
+Anything that cannot be determined with certainty raises, which the build reports as a broken tie.
 """
 from __future__ import annotations
 
 import ast
 import json
 import pathlib
+import re
 import subprocess
 import sys
+
+sys.path.insert(0, str(pathlib.Path(__file__).resolve().parent))
+from gen_reqif import Reader, S, Shape, cond_leaves, norm_test, param_names, to_tpl  # noqa: E402
 
 OUTPUTS = ["SvgTables.v"]
 
@@ -73,7 +82,57 @@ for key, fd in _icons._FACTORIES.items():
 sets = {n: sorted(getattr(decorations, n)) for n in (
     "function_ports", "component_ports", "all_ports", "all_directed_ports", "only_icons",
     "needs_feature_line", "always_top_label")}
-json.dump({"styles": styles, "markers": markers, "symbols": syms, "sets": sets}, sys.stdout)
+
+# ---- probes of the real functions (cross-checked against what the generator reads from the source)
+ask = json.loads(sys.argv[2])
+from capellambse import diagram
+from capellambse.diagram import _json_enc
+from capellambse.svg import drawing as svgdrawing, generate as svggenerate, style as svgstyle
+probe = {}
+probe["intround"] = [[repr(v), _json_enc._intround(v)] for v in ask["intround_values"]]
+probe["vector_fields"] = list(diagram.Vector2D._fields)
+enc = _json_enc.DiagramJSONEncoder()
+cases = []
+for boxes in ask["encoder_boxes"]:
+    d = diagram.Diagram("probe", styleclass="Probe Class", uuid="probe-uuid")
+    for i, (pos, size, hidden) in enumerate(boxes):
+        d.add_element(diagram.Box(tuple(pos), tuple(size), uuid=f"b{i}", styleclass="ProbeBox", hidden=hidden))
+    r = enc.default(d)
+    vp = d.viewport
+    cases.append({
+        "viewport": None if vp is None else [repr(vp.pos.x), repr(vp.pos.y), repr(vp.size.x), repr(vp.size.y)],
+        "vec": None if vp is None else [type(vp.pos) is diagram.Vector2D, type(vp.size) is diagram.Vector2D],
+        "xywh": [r["x"], r["y"], r["width"], r["height"]],
+        "int": [type(r[k]) is int for k in ("x", "y", "width", "height")],
+        "contents": [e.uuid for e in r["contents"]], "visible": [f"b{i}" for i, b in enumerate(boxes) if not b[2]],
+        "class": r["class"],
+    })
+probe["encoder"] = cases
+md = svggenerate.DiagramMetadata(tuple(ask["metadata"][0]), tuple(ask["metadata"][1]), "probe", None)
+probe["metadata"] = {"pos": list(md.pos), "size": list(md.size), "viewbox": md.viewbox}
+dr = svgdrawing.Drawing(md)
+calls = []
+def recorder(name):
+    def f(*a, **kw):
+        pre = sorted({s[: -len(".ProbeClass")] for v in list(a) + list(kw.values()) if isinstance(v, svgstyle.Styling)
+                      for s in vars(v).values() if isinstance(s, str) and s.endswith(".ProbeClass")})
+        calls.append([name, pre])
+    return f
+for name, v in vars(svgdrawing.Drawing).items():
+    if name.startswith("_draw_") and callable(v):
+        setattr(dr, name, recorder(name))
+dispatch = []
+for kind in ask["kinds"]:
+    del calls[:]
+    dr.draw_object({"type": kind, "class": "ProbeClass", "id": "probe-" + kind})
+    dispatch.append([kind, [list(c) for c in calls]])
+probe["dispatch"] = dispatch
+try:
+    dr.draw_object({"type": "no such type", "class": "ProbeClass", "id": "probe-x"})
+    probe["dispatch_unknown"] = "accepted"
+except ValueError:
+    probe["dispatch_unknown"] = "ValueError"
+json.dump({"styles": styles, "markers": markers, "symbols": syms, "sets": sets, "probe": probe}, sys.stdout)
 """
 
 
@@ -100,130 +159,260 @@ def sval(v: list) -> str:
     raise ValueError(tag)
 
 
-# ------------------------------------------------------------------ AST shapes
-def _fn(tree: ast.Module, *path: str) -> ast.AST:
-    cur: list[ast.stmt] = tree.body
-    node = None
-    for p in path:
-        node = next((n for n in cur if isinstance(n, (ast.FunctionDef, ast.ClassDef)) and n.name == p), None)
-        if node is None:
-            raise ValueError(f"{'.'.join(path)}: {p} not found")
-        cur = node.body
-    return node
+# ------------------------------------------------------------------ what the source means
+def _num(e: ast.expr) -> int | float | None:
+    """numeric literal (possibly negated), bool excluded"""
+    if isinstance(e, ast.UnaryOp) and isinstance(e.op, (ast.USub, ast.UAdd)):
+        v = _num(e.operand)
+        return None if v is None else (-v if isinstance(e.op, ast.USub) else v)
+    if isinstance(e, ast.Constant) and isinstance(e.value, (int, float)) and not isinstance(e.value, bool):
+        return e.value
+    return None
 
 
-def _body(fn: ast.FunctionDef) -> list[ast.stmt]:
-    b = list(fn.body)
-    if b and isinstance(b[0], ast.Expr) and isinstance(b[0].value, ast.Constant) and isinstance(b[0].value.value, str):
-        b = b[1:]
-    return b
+def intround_half(repo: pathlib.Path):
+    """_intround(val) == int(val + c): returns c (the Python number of the source)"""
+    rd = Reader(ast.parse((repo / "capellambse/diagram/_json_enc.py").read_text()))
+    fn = rd.find("_intround")
+    if len(param_names(fn)) != 1:
+        raise Shape("_intround: expected one parameter")
+    e = rd.run(fn).value
+    if isinstance(e, ast.Call) and S(e.func) == "int" and "int" not in rd.modbind and len(e.args) == 1 and not e.keywords \
+            and isinstance(e.args[0], ast.BinOp) and isinstance(e.args[0].op, ast.Add):
+        l, r = rd.resolve_const(e.args[0].left), rd.resolve_const(e.args[0].right)
+        for x, c in ((l, r), (r, l)):
+            if S(x) == "P0" and _num(c) is not None:
+                return _num(c)
+    raise Shape(f"_intround means {S(e)}, the model assumes int(val + c)")
 
 
-def intround_half(repo: pathlib.Path) -> tuple[int, int]:
-    """`def _intround(val): return int(val + <c>)` -> c as a fraction."""
+def encoder_shape(repo: pathlib.Path) -> dict[str, object]:
+    """What the JSON encoder emits for a diagram: x / y / width / height are 0 without a viewport and
+    _intround of viewport.pos.x / .pos.y / .size.x / .size.y otherwise; contents are the elements that
+    are not hidden; class is the styleclass.  Returns {"by_position": bool} - whether the source takes
+    the components of pos / size by position (unpacking, [0]) rather than by the names x / y, which is
+    the same only if they are Vector2D(x, y) (checked by the caller through reflection)."""
     tree = ast.parse((repo / "capellambse/diagram/_json_enc.py").read_text())
-    fn = _fn(tree, "_intround")
-    b = _body(fn)
-    if len(fn.args.args) != 1 or len(b) != 1 or not isinstance(b[0], ast.Return):
-        raise ValueError("_intround: unexpected shape")
-    arg = fn.args.args[0].arg
-    e = b[0].value
-    if not (isinstance(e, ast.Call) and isinstance(e.func, ast.Name) and e.func.id == "int" and len(e.args) == 1
-            and not e.keywords and isinstance(e.args[0], ast.BinOp) and isinstance(e.args[0].op, ast.Add)
-            and isinstance(e.args[0].left, ast.Name) and e.args[0].left.id == arg
-            and isinstance(e.args[0].right, ast.Constant) and isinstance(e.args[0].right.value, (int, float))):
-        raise ValueError(f"_intround: body is {ast.unparse(e)!r}, expected the shape int({arg} + c)")
-    from fractions import Fraction
-    fr = Fraction(e.args[0].right.value)
-    return fr.numerator, fr.denominator
-
-
-def encoder_shape(repo: pathlib.Path) -> dict[str, str]:
-    """The encoder's dict for a diagram: which expression feeds x/y/width/height/contents."""
-    tree = ast.parse((repo / "capellambse/diagram/_json_enc.py").read_text())
-    fn = _fn(tree, "DiagramJSONEncoder", "__encode_diagram")
-    b = _body(fn)
-    if len(b) != 1 or not isinstance(b[0], ast.Return) or not isinstance(b[0].value, ast.Dict):
-        raise ValueError("__encode_diagram: unexpected shape")
-    d = {k.value: ast.unparse(v) for k, v in zip(b[0].value.keys, b[0].value.values) if isinstance(k, ast.Constant)}
-    o = fn.args.args[0].arg
-    want = {
-        "x": f"_intround({o}.viewport.pos.x) if {o}.viewport is not None else 0",
-        "y": f"_intround({o}.viewport.pos.y) if {o}.viewport is not None else 0",
-        "width": f"_intround({o}.viewport.size.x) if {o}.viewport is not None else 0",
-        "height": f"_intround({o}.viewport.size.y) if {o}.viewport is not None else 0",
-        "contents": f"[e for e in {o} if not e.hidden]",
-        "class": f"{o}.styleclass",
-    }
+    rd = Reader(tree, opaque=("_intround",))
+    if rd.modfunc("_intround") is None:
+        raise Shape("_json_enc._intround is not a plain module-level function")
+    # the method JSONEncoder.default() hands a Diagram to
+    dflt = rd.run(rd.find("DiagramJSONEncoder", "default"))
+    targets = set()
+    for conds, leaf in cond_leaves(dflt.value):
+        if any(pol and S(norm_test(t, pol)[0]) == "isinstance(P1, diagram.Diagram)" for t, pol in conds):
+            targets.add(S(leaf))
+            break
+    m = re.fullmatch(r"P0\.(\w+)\(P1\)", targets.pop()) if len(targets) == 1 else None
+    if m is None:
+        raise Shape("DiagramJSONEncoder.default: the call that encodes a diagram.Diagram was not found")
+    fn = rd.find("DiagramJSONEncoder", m.group(1))
+    static = any(S(d) == "staticmethod" for d in fn.decorator_list)
+    if len(param_names(fn)) != (1 if static else 2):
+        raise Shape(f"DiagramJSONEncoder.{fn.name}: unexpected parameters")
+    o = "P0" if static else "P1"
+    v = rd.run(fn).value
+    if isinstance(v, ast.IfExp) and isinstance(v.body, ast.Dict) and isinstance(v.orelse, ast.Dict) \
+            and [S(k) for k in v.body.keys if k] == [S(k) for k in v.orelse.keys if k] \
+            and None not in v.body.keys and None not in v.orelse.keys:
+        # `if ..: return {..}` / `return {..}`: the same keys both ways -> one dict of conditional values
+        v = ast.Dict(keys=v.body.keys, values=[a if S(a) == S(b) else ast.IfExp(test=v.test, body=a, orelse=b)
+                                               for a, b in zip(v.body.values, v.orelse.values)])
+    if not isinstance(v, ast.Dict) or not all(isinstance(k, ast.Constant) and isinstance(k.value, str) for k in v.keys):
+        raise Shape(f"DiagramJSONEncoder.{fn.name}: does not return a dict with literal keys: {S(v)[:200]}")
+    d = {k.value: val for k, val in zip(v.keys, v.values)}
+    if len(d) != len(v.keys):
+        raise Shape(f"DiagramJSONEncoder.{fn.name}: duplicate keys")
+    by_position = False
+    for key, vec, comp, idx in (("x", "pos", "x", 0), ("y", "pos", "y", 1), ("width", "size", "x", 0), ("height", "size", "y", 1)):
+        e = d.get(key)
+        ok = False
+        if isinstance(e, ast.IfExp):
+            t, pol = norm_test(e.test, True)
+            none, some = (e.body, e.orelse) if pol else (e.orelse, e.body)
+            base = f"{o}.viewport.{vec}"
+            if S(t) == f"{o}.viewport is None" and isinstance(none, ast.Constant) and type(none.value) is int \
+                    and none.value == 0 and isinstance(some, ast.Call) and S(some.func) == "_intround" \
+                    and len(some.args) == 1 and not some.keywords:
+                arg = S(some.args[0])
+                if arg == f"{base}.{comp}":
+                    ok = True
+                elif arg in (f"UNPACK({base}, 2)[{idx}]", f"{base}[{idx}]"):
+                    ok = by_position = True
+        if not ok:
+            raise Shape(f"diagram encoder [{key!r}] is {S(e) if e is not None else None}, the model assumes "
+                        f"_intround({o}.viewport.{vec}.{comp}) if {o}.viewport is not None else 0")
+    want = {"contents": f"[ITER({o}) for _ in {o} if not ITER({o}).hidden]", "class": f"{o}.styleclass"}
     for k, w in want.items():
-        if d.get(k) != w:
-            raise ValueError(f"__encode_diagram[{k!r}] is {d.get(k)!r}, the model assumes {w!r}")
-    return d
+        if k not in d or S(d[k]) != w:
+            raise Shape(f"diagram encoder [{k!r}] is {S(d[k]) if k in d else None}, the model assumes {w!r}")
+    return {"by_position": by_position}
 
 
 def metadata_padding(repo: pathlib.Path) -> tuple[int, int, int, int]:
-    """self.pos = (pos[0] - a, pos[1] - b); self.size = (size[0] + c, size[1] + d)."""
-    tree = ast.parse((repo / "capellambse/svg/generate.py").read_text())
-    fn = _fn(tree, "DiagramMetadata", "__init__")
+    """self.pos = (pos[0] + a, pos[1] + b); self.size = (size[0] + c, size[1] + d);
+    self.viewbox = the four numbers joined by blanks.  Returns (a, b, c, d)."""
+    rd = Reader(ast.parse((repo / "capellambse/svg/generate.py").read_text()))
+    fn = rd.find("DiagramMetadata", "__init__")
+    params = param_names(fn)
+    if "pos" not in params or "size" not in params or params[0] != "self":
+        raise Shape("DiagramMetadata.__init__: parameters pos / size not found")
+    par = {"pos": f"P{params.index('pos')}", "size": f"P{params.index('size')}"}
+    res = rd.run(fn)
+    stores: dict[str, dict[int, ast.expr]] = {}
+    for ev in res.events:
+        if ev.kind == "setattr" and S(ev.recv) == "P0" and ev.attr in ("pos", "size", "viewbox"):
+            stores.setdefault(ev.attr, {})[id(ev.node)] = ev.val
     found: dict[str, tuple[int, int]] = {}
-    for st in ast.walk(fn):
-        if isinstance(st, ast.Assign) and len(st.targets) == 1 and isinstance(st.targets[0], ast.Attribute) \
-                and isinstance(st.targets[0].value, ast.Name) and st.targets[0].value.id == "self" \
-                and st.targets[0].attr in ("pos", "size"):
-            name = st.targets[0].attr
-            v = st.value
-            if not (isinstance(v, ast.Tuple) and len(v.elts) == 2):
-                raise ValueError(f"DiagramMetadata.{name}: not a pair")
-            offs = []
-            for i, el in enumerate(v.elts):
-                if not (isinstance(el, ast.BinOp) and isinstance(el.op, (ast.Add, ast.Sub))
-                        and ast.unparse(el.left) == f"{name}[{i}]"
-                        and isinstance(el.right, ast.Constant) and isinstance(el.right.value, int)):
-                    raise ValueError(f"DiagramMetadata.{name}[{i}] is {ast.unparse(el)!r}")
-                offs.append(el.right.value if isinstance(el.op, ast.Add) else -el.right.value)
-            if name in found:
-                raise ValueError(f"DiagramMetadata.{name} assigned twice")
-            found[name] = (offs[0], offs[1])
-        if isinstance(st, ast.Assign) and len(st.targets) == 1 and ast.unparse(st.targets[0]) == "self.viewbox":
-            if ast.unparse(st.value) != "' '.join(map(str, self.pos + self.size))":
-                raise ValueError("DiagramMetadata.viewbox: " + ast.unparse(st.value))
-            found["viewbox"] = (0, 0)
-    if set(found) != {"pos", "size", "viewbox"}:
-        raise ValueError(f"DiagramMetadata.__init__: found only {sorted(found)}")
+    for name in ("pos", "size"):
+        vals = {S(v): v for v in stores.get(name, {}).values()}
+        if len(stores.get(name, {})) != 1 or len(vals) != 1:
+            raise Shape(f"DiagramMetadata.{name}: expected exactly one assignment, found {sorted(vals)}")
+        v = next(iter(vals.values()))
+        if not (isinstance(v, ast.Tuple) and len(v.elts) == 2):
+            raise Shape(f"DiagramMetadata.{name}: not a pair: {S(v)}")
+        offs = []
+        for i, el in enumerate(v.elts):
+            comp = (f"{par[name]}[{i}]", f"UNPACK({par[name]}, 2)[{i}]")
+            off = None
+            if isinstance(el, ast.BinOp) and isinstance(el.op, (ast.Add, ast.Sub)):
+                l, r = rd.resolve_const(el.left), rd.resolve_const(el.right)
+                if S(l) in comp and isinstance(_num(r), int):
+                    off = _num(r) if isinstance(el.op, ast.Add) else -_num(r)
+                elif isinstance(el.op, ast.Add) and S(r) in comp and isinstance(_num(l), int):
+                    off = _num(l)
+            if off is None:
+                raise Shape(f"DiagramMetadata.{name}[{i}] is {S(el)}, the model assumes {comp[0]} + constant")
+            offs.append(off)
+        found[name] = (offs[0], offs[1])
+    vb = {S(v) for v in stores.get("viewbox", {}).values()}
+    if len(stores.get("viewbox", {})) != 1 or vb != {"' '.join(map(str, P0.pos + P0.size))"}:
+        raise Shape(f"DiagramMetadata.viewbox: {sorted(vb)}")
     return (*found["pos"], *found["size"])
 
 
 def type_mapping(repo: pathlib.Path) -> list[tuple[str, str, str]]:
-    tree = ast.parse((repo / "capellambse/svg/drawing.py").read_text())
-    fn = _fn(tree, "Drawing", "draw_object")
-    for st in ast.walk(fn):
-        if isinstance(st, ast.AnnAssign) and isinstance(st.target, ast.Name) and st.target.id == "type_mapping":
-            if not isinstance(st.value, ast.Dict):
-                break
-            out = []
-            for k, v in zip(st.value.keys, st.value.values):
-                if not (isinstance(k, ast.Constant) and isinstance(v, ast.Tuple) and len(v.elts) == 2
-                        and isinstance(v.elts[1], ast.Constant) and isinstance(v.elts[0], ast.Attribute)):
-                    raise ValueError("type_mapping entry shape")
-                out.append((k.value, v.elts[0].attr, v.elts[1].value))
-            return out
-    raise ValueError("Drawing.draw_object: type_mapping literal not found")
+    """Drawing.draw_object: the draw method and the style prefix are selected by obj["type"] from one
+    table (a dict literal in the function or a module-level constant) of either bound methods
+    ``self._draw_x`` or method names resolved with ``getattr(self, name)``.
+    Returns [(type, method name, style prefix)] in table order."""
+    rd = Reader(ast.parse((repo / "capellambse/svg/drawing.py").read_text()))
+    fn = rd.find("Drawing", "draw_object")
+    if len(param_names(fn)) != 2:
+        raise Shape("Drawing.draw_object: unexpected parameters")
+    res = rd.run(fn)
+    key = r"(?:copy\.deepcopy\(P1\)|P1)\['type'\]"
+    hits: dict[str, tuple[ast.expr, str, bool]] = {}
+    for ev in res.events:
+        if ev.kind != "call":
+            continue
+        f = ev.call.func
+        by_name = False
+        if isinstance(f, ast.Call) and S(f.func) == "getattr" and len(f.args) == 2 and not f.keywords and S(f.args[0]) == "P0":
+            f, by_name = f.args[1], True
+        # f must be: first component of TABLE[obj["type"]]
+        if isinstance(f, ast.Subscript) and S(f.slice) == "0" and isinstance(f.value, ast.Call) \
+                and S(f.value.func) == "UNPACK" and S(f.value.args[1]) == "2" \
+                and isinstance(f.value.args[0], ast.Subscript) and re.fullmatch(key, S(f.value.args[0].slice)):
+            entry = f.value.args[0]
+            hits[S(ev.call.func)] = (rd.resolve_const(entry.value), S(entry), by_name)
+    if len(hits) != 1:
+        raise Shape(f"Drawing.draw_object: the one call dispatched on obj['type'] was not found ({sorted(hits)})")
+    table, entry_s, by_name = next(iter(hits.values()))
+    if not isinstance(table, ast.Dict):
+        raise Shape(f"Drawing.draw_object: the dispatch table is not a dict literal: {S(table)[:120]}")
+    style_expr = f"UNPACK({entry_s}, 2)[1]"
+    styled = 0
+    for ev in res.events:
+        if ev.kind == "call" and S(ev.call.func) in ("capstyle.get_style", "style.Styling") and len(ev.call.args) >= 2:
+            first = to_tpl(ev.call.args[1], rd).parts[:1]
+            if not first or first[0][0] != "hole" or S(first[0][1]) != style_expr:
+                raise Shape(f"Drawing.draw_object: {S(ev.call.func)} is not given a class that starts with the "
+                            f"style prefix of the table: {S(ev.call.args[1])[:160]}")
+            styled += 1
+    if styled == 0:
+        raise Shape("Drawing.draw_object: no style lookup uses the style prefix of the table")
+    out = []
+    for k, v in zip(table.keys, table.values):
+        if not (isinstance(k, ast.Constant) and isinstance(k.value, str) and isinstance(v, ast.Tuple) and len(v.elts) == 2
+                and isinstance(v.elts[1], ast.Constant) and isinstance(v.elts[1].value, str)):
+            raise Shape(f"Drawing.draw_object: dispatch table entry {S(k) if k else None}: {S(v)}")
+        m = v.elts[0]
+        if by_name and isinstance(m, ast.Constant) and isinstance(m.value, str):
+            method = m.value
+        elif not by_name and isinstance(m, ast.Attribute) and S(m.value) == "P0":
+            method = m.attr
+        else:
+            raise Shape(f"Drawing.draw_object: dispatch table entry {k.value!r} names {S(m)}")
+        out.append((k.value, method, v.elts[1].value))
+    if len({k for k, _, _ in out}) != len(out):
+        raise Shape("Drawing.draw_object: duplicate keys in the dispatch table")
+    return out
 
 
 KIND_FUNCS = {"box": "_draw_box", "edge": "_draw_edge", "circle": "_draw_circle", "symbol": "_draw_symbol",
               "box_symbol": "_draw_box_symbol"}
 
+INTROUND_VALUES = [-3, -2.5, -2.49, -1.5, -0.51, -0.5, -0.49, 0, 0.25, 0.49, 0.5, 0.75, 1.5, 2.5, 7, 1000000.5,
+                   10 ** 12, -10 ** 12, 123456.499]
+ENCODER_BOXES = [
+    [],
+    [[[3.25, 5.5], [7.75, 11.49], False]],
+    [[[3.25, 5.5], [7.75, 11.49], False], [[1.5, 2.5], [100.5, 200.25], True]],
+    [[[-20.5, -7.25], [40, 30.5], True], [[10, 20], [30, 40], False], [[0.5, 0.5], [2.5, 3.5], False]],
+]
+METADATA = [[100, 200], [300, 400]]
+
+
+def cross_check(probe: dict, c, enc: dict, pad: tuple[int, int, int, int], tm: list[tuple[str, str, str]]) -> None:
+    """the real functions of the tree under check must behave as the source was read"""
+    for (rv, got), v in zip(probe["intround"], INTROUND_VALUES):
+        if rv != repr(v) or got != int(v + c) or type(got) is not int:
+            raise Shape(f"_intround({rv}) = {got!r} but the source was read as int(val + {c!r})")
+    if enc["by_position"] and probe["vector_fields"] != ["x", "y"]:
+        raise Shape(f"the encoder takes pos/size by position but Vector2D has fields {probe['vector_fields']}")
+    for boxes, case in zip(ENCODER_BOXES, probe["encoder"]):
+        if case["viewport"] is None:
+            want = [0, 0, 0, 0]
+            if boxes:
+                raise Shape("probe: a diagram with elements has no viewport")
+        else:
+            if case["vec"] != [True, True]:
+                raise Shape("probe: viewport.pos / viewport.size are not Vector2D")
+            want = [int(float(s) + c) for s in case["viewport"]]
+        if case["xywh"] != want or case["int"] != [True] * 4:
+            raise Shape(f"probe: the encoder gives x/y/width/height {case['xywh']} for viewport {case['viewport']}, "
+                        f"the source was read as {want}")
+        if case["contents"] != case["visible"] or case["class"] != "Probe Class":
+            raise Shape(f"probe: the encoder gives contents {case['contents']} (visible {case['visible']}), "
+                        f"class {case['class']!r}")
+    (px, py), (sx, sy) = METADATA
+    want_md = {"pos": [px + pad[0], py + pad[1]], "size": [sx + pad[2], sy + pad[3]]}
+    want_md["viewbox"] = " ".join(map(str, want_md["pos"] + want_md["size"]))
+    if probe["metadata"] != want_md:
+        raise Shape(f"probe: DiagramMetadata gives {probe['metadata']}, the source was read as {want_md}")
+    want_dispatch = [[k, [[f, [t]]]] for k, f, t in tm]
+    if probe["dispatch"] != want_dispatch or probe["dispatch_unknown"] != "ValueError":
+        raise Shape(f"probe: draw_object dispatches {probe['dispatch']} / unknown type: {probe['dispatch_unknown']}, "
+                    f"the source was read as {want_dispatch}")
+
 
 def generate(repo: pathlib.Path) -> dict[str, str]:
-    p = subprocess.run([sys.executable, "-c", REFLECT, str(repo)], capture_output=True, text=True, timeout=120,
-                       env={"PYTHONHASHSEED": "0", "PATH": "/usr/bin:/bin", "HOME": "/tmp"})
+    c = intround_half(repo)
+    enc = encoder_shape(repo)
+    px, py, sx, sy = metadata_padding(repo)
+    tm = type_mapping(repo)
+    ask = {"intround_values": INTROUND_VALUES, "encoder_boxes": ENCODER_BOXES, "metadata": METADATA,
+           "kinds": [k for k, _, _ in tm]}
+    p = subprocess.run([sys.executable, "-c", REFLECT, str(repo), json.dumps(ask)], capture_output=True, text=True,
+                       timeout=120, env={"PYTHONHASHSEED": "0", "PATH": "/usr/bin:/bin", "HOME": "/tmp"})
     if p.returncode != 0:
         raise RuntimeError("reflection failed: " + p.stderr[-800:])
     data = json.loads(p.stdout)
-    num, den = intround_half(repo)
-    encoder_shape(repo)
-    px, py, sx, sy = metadata_padding(repo)
-    tm = type_mapping(repo)
+    cross_check(data["probe"], c, enc, (px, py, sx, sy), tm)
+    from fractions import Fraction
+    fr = Fraction(c)
+    num, den = fr.numerator, fr.denominator
     if sorted(k for k, _, _ in tm) != sorted(KIND_FUNCS):
         raise ValueError(f"type_mapping kinds changed: {[k for k, _, _ in tm]}")
     for k, f, _ in tm:
@@ -265,3 +454,7 @@ def generate(repo: pathlib.Path) -> dict[str, str]:
         out.append(f"Definition {n.upper()} : list str := {clist([cstr(v) for v in vals])}.")
     out.append("")
     return {"SvgTables.v": "\n".join(out) + "\n"}
+
+
+if __name__ == "__main__":
+    print(generate(pathlib.Path(sys.argv[1] if len(sys.argv) > 1 else "/repo"))["SvgTables.v"])
